@@ -25,11 +25,11 @@ class Gen:
 
     def __init__(self, rng: random.Random, *, bits=True, dynamic=True, unions=True, pointers=True, floats=True,
                  leb=True, wchar=True, depth=2, max_fields=6, eof=True, null=True, void=False, static_only=False, aliases=True,
-                 dyn_unions=False, signed_flags=False, dup_flags=False):
+                 dyn_unions=False, signed_flags=False, dup_flags=False, empty=True):
         self.rng = rng
         self.o = dict(bits=bits, dynamic=dynamic and not static_only, unions=unions, pointers=pointers, floats=floats, leb=leb and not static_only,
                       wchar=wchar, depth=depth, max_fields=max_fields, eof=eof and not static_only, null=null and not static_only, void=void,
-                      aliases=aliases, dyn_unions=dyn_unions and not static_only, signed_flags=signed_flags, dup_flags=dup_flags)
+                      aliases=aliases, dyn_unions=dyn_unions and not static_only, signed_flags=signed_flags, dup_flags=dup_flags, empty=empty)
         self.decls: list[str] = []
         self.enums: list[str] = []
         self.structs: list[tuple[str, bool]] = []   # (name, is_static)
@@ -130,7 +130,8 @@ class Gen:
                         continue
                 kw = "union" if (self.o["unions"] and r.random() < 0.3) else "struct"
                 sub_static_only = static_only or in_union or (kw == "union" and not (self.o["dyn_unions"] and r.random() < 0.6))
-                sub, sub_static = self.field_lines(depth - 1, r.randrange(1, 4), kw == "union", sub_static_only)
+                nsub = 0 if (self.o["empty"] and r.random() < 0.07) else r.randrange(1, 4)      # an empty structure now and then
+                sub, sub_static = self.field_lines(depth - 1, nsub, kw == "union", sub_static_only)
                 body = " ".join(sub)
                 if r.random() < 0.3 and not in_union:
                     lines.append(f"{kw} {{ {body} }};")          # anonymous: members are forwarded
@@ -191,7 +192,8 @@ class Gen:
             kw = "union" if (self.o["unions"] and r.random() < 0.25) else "struct"
             name = self.fresh("S")
             static_only = kw == "union" or r.random() < 0.6
-            lines, st = self.field_lines(max(0, self.o["depth"] - 1), r.randrange(1, 4), kw == "union", static_only)
+            nsub = 0 if (self.o["empty"] and r.random() < 0.08) else r.randrange(1, 4)
+            lines, st = self.field_lines(max(0, self.o["depth"] - 1), nsub, kw == "union", static_only)
             self.decls.append(f"{kw} {name} {{ {' '.join(lines)} }};")
             self.structs.append((name, st))
         lines, _ = self.field_lines(self.o["depth"], r.randrange(1, self.o["max_fields"] + 1), False, False)
